@@ -6,6 +6,8 @@ Import ListNotations.
 Open Scope Z_scope.
 
 Inductive profile := Debug | Release.
+Definition un_profile (s : sx) : option profile :=
+  match s with SZ 0 => Some Debug | SZ 1 => Some Release | _ => None end.
 
 Definition min32 : Z := -2147483648.
 Definition max32 : Z := 2147483647.
